@@ -56,6 +56,30 @@ def run(cx):
                                               local_flows_from(g, op_place(t.args[0]).local, lambda d: d is hs[0], 10) is not None for t in disp)
     cx.ob("R26.hash-what-you-store", g.id + "|printed-id-is-inserted-key", ok,
           "the operationId written into the artifact is not the key under which the document was stored", g.loc())
+    # ---- R26.same-operation: the persisted document is the operation the non-persisted build sends ------
+    # (a) generate_operation_text prints exactly the operation it was given
+    gq = qt[0]
+    want = {1: 5, 2: 2, 3: 3, 4: 4}      # generate_query_text arg index -> generate_operation_text parameter
+    for ai, pi in want.items():
+        a = op_place(gq.args[ai])
+        pr = samesrc.producer(g, a.local) if a is not None else None
+        cx.ob("R26.same-operation", g.id + "|query-text-arg%d-is-param%d" % (ai, pi), pr is not None and pr[0] == "param" and pr[1] == pi,
+              "the document that is recorded is not printed from the operation passed in (argument %d comes from %s)" % (ai, pr), g.loc(gq.line))
+    # (b) every artifact generator passes the same operation to the pretty printer and to generate_operation_text
+    callers = [f for f in fb.fns.values() if f.crate == "artifact_content" and any(t.callee == g.id for t in f.calls())]
+    cx.floor("R26.same-operation artifact generators recording operations", len(callers), 2)
+    for f in callers:
+        ops = [t for t in f.calls() if t.callee == g.id]
+        qts = [t for t in f.calls() if term_calls(t, r"NetworkProtocol>?::generate_query_text$")]
+        if len(ops) != 1 or len(qts) != 1:
+            raise AnchorError("%s: expected one generate_query_text and one generate_operation_text call" % f.id)
+        o, q = ops[0], qts[0]
+        for label, qi, oi in (("selection-map", 3, 2), ("operation-name", 2, 1), ("variables", 4, 3), ("root-entity", 1, 4)):
+            qa, oa = op_place(q.args[qi]), op_place(o.args[oi])
+            same, why = samesrc.same_source(f, qa.local, oa.local) if qa is not None and oa is not None else (False, "constant")
+            cx.ob("R26.same-operation", f.id + "|%s" % label, same,
+                  "the %s given to generate_operation_text (whose compact text is hashed and recorded) is not the one given "
+                  "to the query text of the non-persisted build: %s" % (label, why), f.loc(o.line))
     # ---- R26.recorded-iff-referenced -----------------------------------------------------------
     po = []
     for b in g.blocks:
